@@ -144,6 +144,8 @@ func buildFile(fc fileCase) (f *ach.File, panicked any) {
 			return g, nil
 		}
 		return genValidFile(fc), nil
+	case "newbatch": // phase 5: NewFile + AddBatch(NewBatch(header with this SEC code)) for the SEC codes in Name, nothing else
+		return newBatchFile(strings.Split(fc.Name, ",")), nil
 	case "gentext": // the same file written out and read back by the Reader under the case's options
 		g := genValidFile(fc)
 		text, err := gen.Text(g, fc.Seed&1 == 0)
@@ -552,7 +554,7 @@ func kindClass(kind string) string {
 	switch kind {
 	case "reader", "gentext":
 		return "reader"
-	case "api", "api-adv", "api-padded", "gen", "genmut":
+	case "api", "api-adv", "api-padded", "gen", "genmut", "newbatch":
 		return "api"
 	}
 	return kind
